@@ -239,8 +239,19 @@ func C08(c *core.Ctx) {
 				if core.IsPkgFunc(f, core.PkgIE, "NewFSEID") && sess != nil && core.IsPath(ic.Call.Args[0], sess, "LocalID") {
 					okFseid = true
 				}
-				if f.Name() == "newIeNodeID" && core.IsPath(ic.Call.Args[0], core.Recv(fn), "nodeID") {
-					okNode = true
+				if f.Name() == "newIeNodeID" && len(ic.Call.Args) > 0 {
+					// newIeNodeID(s.nodeID), or - as a method - s.newIeNodeID() reading s.nodeID itself
+					if core.IsPath(ic.Call.Args[0], core.Recv(fn), "nodeID") {
+						okNode = true
+					} else if ic.Call.Args[0] == ssa.Value(core.Recv(fn)) {
+						if h := core.StaticFn(ic); h != nil && h.Blocks != nil {
+							for _, a := range core.FieldAccesses(h) {
+								if a.Field.Name() == "nodeID" && !a.Write && core.Unwrap(a.Base) == ssa.Value(core.Recv(h)) {
+									okNode = true
+								}
+							}
+						}
+					}
 				}
 			}
 			c.Check("R3", "est-fseid", ci.Pos(), okFseid, "the UP F-SEID returned is the LocalID of the session just created (the SEID that addresses it from now on)")
